@@ -489,6 +489,12 @@ func runC11(cfg config) {
 		if okmin && okfull {
 			evalsEqual = evalStr(emin) == evalStr(efull)
 			strSrc = emin.String() == smin && efull.String() == sfull
+			for _, deco := range [][2]string{{" ", ""}, {"", "\n"}, {"\n\t", "  \n"}, {"", " // c"}} {
+				src := deco[0] + smin + deco[1]
+				if e, _, ok := compile(src); !ok || e.String() != src {
+					strSrc = false
+				}
+			}
 		}
 		if okmin {
 			gaps := []func(int, c11Tok, c11Tok) string{
